@@ -32,6 +32,11 @@ def generate(rng, tier):
     if tier == "thorough":
         seeds += [rng.getrandbits(64) for _ in range(30)] + [MAXU - k for k in range(2, 20)]
     cases = []
+    # init_with_seed / init_det are pure functions of (n, d, seed): the same bytes under every thread-pool size, also for
+    # requests large enough (>= 2^15, 2^16 entries) for a size-triggered parallel fill
+    for f in ["f64", "f32"]:
+        for (rows, cols) in [(512, 64), (256, 256), (33, 7)]:
+            cases.append(dict(spec("init", f, rng.getrandbits(64), rows, cols, 0), op="threads", threads=[1, 2, 3, 16]))
     for kind, f in KINDS:
         for s in seeds:
             nc = rng.choice([2, 3, 5])
